@@ -140,4 +140,5 @@ package sender
 // The walk callback prunes (SkipDir) only directories: answering SkipDir
 // for a file makes fs.WalkDir skip the file's remaining siblings.
 //@ func (*sender.scopedWalker).walkFn
-//@   ensures[C13] [skipdir-only-for-directories] isSkipDir(result) && err == nil ==> modeIsDir(infoMode(entryInfo(data(d))))
+//@   results ret
+//@   ensures[C13] [skipdir-only-for-directories] isSkipDir(ret) && err == nil ==> modeIsDir(infoMode(entryInfo(data(d))))
